@@ -4,6 +4,7 @@ A *fault plan* (a JSON-able dict) assigns an outcome to every user-callback site
 pages of a real `cherrypy.Application`, and says how the (simulated) WSGI server consumes the result:
 
     {'meth': 'get'|'head'|'post', 'noHost': 0|1, 'badQuery': 0|1, 'reads': None|m, 'closes': n, 'start': i,
+     'gtb': 0|1 (request.show_tracebacks in the global config; default 1),
      'pages': [{'dispatch': OUT, 'ns': OUT, 'body': OUT, 'handler': [OUT, SHAPE, STATUS|None],
                 'errResp': None|OUT, 'errPage': 'absent'|'cbOk'|'cbFail'|'tmplFail', 'tb': 0|1, 'stream': 0|1,
                 'hooks': [[point 0..7, id, priority, failsafe 0|1, OUT], ...]   # attachment order
@@ -78,7 +79,8 @@ class Run:
         self.reqs = []         # ProbeRequest objects in creation order
         self.closing = []
         self.starts = []       # (status, headers, exc_info is not None)
-        self.raised = {}       # journal position -> True when that hook call raised
+        self.sites = []        # (site, planned outcome) of every probe callback, in call order (for oracles)
+        self.chunk_before_start = False
 
     def cur(self):
         if self.closing:
@@ -90,6 +92,8 @@ _run = [None]
 
 
 def do_raise(out, site):
+    if _run[0] is not None:
+        _run[0].sites.append((site, out))
     if out == 'ok':
         return
     if out == 'ex':
@@ -150,7 +154,7 @@ def _mk_hook(point, hid, out):
     def cb():
         run = _run[0]
         run.j.append('h%s.%d.%d' % (run.cur(), point, hid))
-        do_raise(out, 'hook%d' % hid)
+        do_raise(out, 'hook%d.%d' % (point, hid))
     cb.vp_id = hid
     cb.vp_out = out
     return cb
@@ -184,6 +188,7 @@ def _ep_ok(status='', message='', traceback='', version='', **kw):
 def _ep_fail(**kw):
     run = _run[0]
     run.j.append('P%s' % run.cur())
+    run.sites.append(('errpage', 'ex'))
     raise ProbeError('%s-errpage' % MARK)
 
 
@@ -194,6 +199,8 @@ def _gen_body(k):
         return
     for _ in range(k):
         yield PAGE_CHUNK
+    if _run[0] is not None:
+        _run[0].sites.append(('gen', 'ex'))
     raise ProbeError('%s-gen' % MARK)
 
 
@@ -210,7 +217,8 @@ class Root:
         except ValueError:
             idx = -1
         if not (0 <= idx < len(self.pages)):
-            raise common.HarnessError('handler reached for an unplanned path %r' % (args,))
+            # a path the plan has no page for: what the default dispatcher does when nothing matches
+            raise cherrypy.NotFound()
         out, shape, status = self.pages[idx]['handler']
         do_raise(out, 'handler')
         if status is not None:
@@ -297,6 +305,7 @@ def build_environ(plan):
 def run_real(plan, app_wrapper=None):
     """Execute the plan on the real code.  Returns the observation dict."""
     app = build_app(plan)
+    cherrypy.config.update({'request.show_tracebacks': bool(plan.get('gtb', 1))})
     wsgi_app = app_wrapper(app) if app_wrapper else app
     env = build_environ(plan)
     run = Run()
@@ -320,6 +329,8 @@ def run_real(plan, app_wrapper=None):
                     c = next(itr)
                 except StopIteration:
                     break
+                if not run.starts:
+                    run.chunk_before_start = True
                 chunks.append(c)
                 n += 1
         except Exception as e:     # noqa: BLE001 - exactly what C01 forbids; recorded, not raised
@@ -347,7 +358,8 @@ def run_real(plan, app_wrapper=None):
                 lst.append((getattr(cb, 'vp_id', -1), h.priority, bool(h.failsafe), getattr(cb, 'vp_out', 'ok')))
             attached[p] = lst
         reqs.append({'hooks': attached, 'show_tracebacks': bool(rq.show_tracebacks), 'closed': bool(rq.closed)})
-    return {'j': run.j, 'starts': run.starts, 'chunks': chunks, 'escaped': escaped, 'reqs': reqs}
+    return {'j': run.j, 'starts': run.starts, 'chunks': chunks, 'escaped': escaped, 'reqs': reqs,
+            'sites': run.sites, 'chunk_before_start': run.chunk_before_start}
 
 
 # ----------------------------------------------------------------------------------------------
@@ -357,7 +369,7 @@ def plan_line(plan):
     def opt(x):
         return 'N' if x is None else str(x)
     head = [plan['meth'], str(plan['noHost']), str(plan['badQuery']), opt(plan['reads']), str(plan['closes']),
-            str(plan['start'])]
+            str(plan['start']), str(plan.get('gtb', 1))]
     out = [' '.join(head)]
     for pg in plan['pages']:
         h = pg['handler']
@@ -371,7 +383,7 @@ def parse_model(line):
     parts = dict(p.split('=', 1) for p in line.split(' '))
     return {'j': [] if parts['J'] == '-' else parts['J'].split(','), 'body': parts['B'],
             'tail': None if parts['T'] == 'N' else int(parts['T']), 'escaped': parts['X'] == '1',
-            'fuel': parts['F'] == '1'}
+            'fuel': parts['F'] == '1', 'req_tb': parts['Q'] == '1', 'trapped_at_init': parts['I'] == '1'}
 
 
 def body_flags_real(obs):
@@ -433,7 +445,8 @@ def gen_out(rng, npages, weights=(60, 18, 8, 7, 7)):
     if k == 'hr':
         return 'hr%d' % rng.choice(HR_CODES)
     if k == 'ir':
-        return 'ir%d' % rng.randrange(npages)
+        # now and then a target the plan has no page for
+        return 'ir%d' % (rng.randrange(npages) if rng.random() < 0.93 else npages + rng.randrange(2))
     return k
 
 
@@ -480,7 +493,8 @@ def gen_plan(rng, focus=None):
         'badQuery': 1 if rng.random() < 0.04 else 0,
         'reads': rng.choices([None, 0, 1, 2, 3], weights=[70, 8, 8, 8, 6])[0],
         'closes': rng.choices([1, 2, 3, 0], weights=[75, 15, 7, 3])[0],
-        'start': rng.randrange(npages),
+        'start': rng.randrange(npages) if rng.random() < 0.98 else npages,
+        'gtb': rng.choice([0, 1]),
         'pages': pages,
     }
 
@@ -493,7 +507,8 @@ def base_page(**kw):
 
 
 def base_plan(pages, **kw):
-    pl = {'meth': 'get', 'noHost': 0, 'badQuery': 0, 'reads': None, 'closes': 1, 'start': 0, 'pages': pages}
+    pl = {'meth': 'get', 'noHost': 0, 'badQuery': 0, 'reads': None, 'closes': 1, 'start': 0, 'gtb': 1,
+          'pages': pages}
     pl.update(kw)
     return pl
 
